@@ -122,7 +122,7 @@ def run_target(reg, key, n=300, seed=0, seconds=20.0, clause_idx=None, gen_overr
             break
         except Exception as e:      # noqa  (e.g. constructor rejects the random configuration)
             continue
-        ce = CEval(reg, dict(args))
+        ce = CEval(reg, dict(args), strict=True)
         ok = True
         for r in c['requires']:
             if callable(r):
